@@ -73,7 +73,8 @@ impl StoreCfg {
     }
     pub fn open(&self, dir: &Path) -> Result<Database, String> {
         // the leak grows with the bucket count (reader threads x segment files): many-bucket stores are charged more
-        OPENS.fetch_add((self.buckets as u64 / 2).max(1), std::sync::atomic::Ordering::Relaxed);
+        // (64 buckets leak ~500 descriptors per open, 1-4 buckets a few dozen; the limit is 20000 per process)
+        OPENS.fetch_add(if self.buckets <= 8 { 1 } else { self.buckets as u64 / 4 }, std::sync::atomic::Ordering::Relaxed);
         let mut b = DatabaseBuilder::new();
         b.segment_size_bytes(self.segment_size)
             .total_buckets(self.buckets)
